@@ -17,6 +17,7 @@ EXPLANATION = (
     "and both strings come from normalize_smiles of the two arguments; the benchmark normalises both sides with the same function.  "
     "Idempotence / spelling invariance of RDKit canonicalisation and symmetry / range of fingerprint similarities are NOT decided."
     ' (O3) the two difference lists of _get_diff_mol are filled symmetrically; (O4) the atom-map removal applied first keeps the molecule (shared with C15-Rg1/Rg2); (O5) every return of normalize_smiles is a join of recursive results or canon_smiles(...).'
+    ' (O1/O5 also follow a helper that builds the normal form for normalize_smiles); (O6) nothing reachable from the comparison mutates a container shared between calls (module level, mutable default, memoised result); (O7) canon_smiles sanitises with every RDKit step.'
 )
 ASSUMPTIONS = ["Python's list.sort is stable and orders tuples lexicographically"]
 
